@@ -751,6 +751,9 @@ func c07(e *env) {
 	}
 	w := rig.NewWriter(e.out, "C07", e.tier, e.seed)
 	w.Shards = 8
+	if e.tier == "thorough" {
+		w.Shards = 16
+	}
 	r := rig.NewRand(e.seed)
 	x := &run07{w: w, r: r}
 	g := gen07{r}
